@@ -127,6 +127,25 @@ func c14FollowUp(world *ledger.World, rng *rand.Rand, peer, synced *ledger.Node,
 			world.Violate("C14", "follow-up-gossip-treated-differently/dropped-tip-resealed", fmt.Sprintf("a vertex sealing the transaction of a tip that the peer dropped earlier was %s by the peer (%v) and %s by the synced node (%v)", class(e1), e1, class(e2), e2))
 		}
 	}
+	// a vertex on the oldest tip (the one with the lowest weight), which may lie far below the newest one
+	if s := peer.Prev; s != nil && len(s.Leaves) > 0 {
+		var old ledger.H
+		var ow uint64 = ^uint64(0)
+		for h := range s.Leaves {
+			if v, ok := s.Vertex(h); ok && (v.Weight < ow || (v.Weight == ow && string(h[:]) < string(old[:]))) {
+				old, ow = h, v.Weight
+			}
+		}
+		t := world.NewTrx(world.Users[0], world.Users[1].Addr, spice.Melange{}, []byte("on the oldest tip"))
+		v := ledger.ForgeVertex(world.Sealers[0], t, old, old, ow+1, world.Now())
+		e1 := world.Deliver(peer, &v, "follow-up on the oldest tip")
+		e2 := world.Deliver(synced, &v, "follow-up on the oldest tip")
+		world.EvalFor("C14", 1)
+		world.NontrivFor("C14", fmt.Sprintf("follow-up/oldest-tip/%s/tips%d", class(e1), bucketN(len(s.Leaves))))
+		if class(e1) != class(e2) {
+			world.Violate("C14", "follow-up-gossip-treated-differently/oldest-tip", fmt.Sprintf("a vertex on the oldest tip (weight %d) was %s by the peer (%v) and %s by the synced node (%v)", ow, class(e1), e1, class(e2), e2))
+		}
+	}
 	for i := 0; i < steps; i++ {
 		s := peer.Prev
 		if s == nil || len(s.Live) == 0 {
@@ -550,9 +569,57 @@ func c14DroppedTip(w *core.WorkerCtx) {
 	}
 }
 
+// c14OldTip: the peer's ledger is a chain of 70-130 vertices with one old side tip near its start (a vertex that
+// arrived late and was never built upon). A node syncs; both then get the same follow-up gossip, first of all a vertex
+// on that old tip.
+func c14OldTip(w *core.WorkerCtx) {
+	rng := core.Rand(w.Seed, "C14oldtip", w.Batch)
+	size := 70 + rng.Intn(60)
+	desc := fmt.Sprintf("c14 old side tip: chain of %d vertices with a side tip on its 5th vertex, then sync and follow-up gossip", size)
+	w.Mark("%s", desc)
+	world := ledger.NewWorld(rng, w.R, []string{"C14"}, allSnapOracles, desc)
+	defer world.Close()
+	if _, err := ledger.Setup(world, ledger.Profile{Nodes: 1, Users: 4, SupplyClass: 0, Delivery: "lockstep"}); err != nil {
+		w.R.Inconc("setup failed: " + err.Error())
+		return
+	}
+	n := world.Nodes[0]
+	u := world.Users
+	var old accountant.Vertex
+	world.Quiet = true
+	for i := 0; i < size; i++ {
+		t := world.NewTrx(u[0], u[1+i%3].Addr, spice.Melange{SupplementaryCurrency: uint64(1 + i%9)}, nil)
+		v, err := world.Propose(n, &t, "grow")
+		if err == nil && i == 4 {
+			old = v
+		}
+	}
+	world.Quiet = false
+	world.Observe(n, ledger.OpInfo{Kind: "milestone", OK: true})
+	st := world.NewTrx(u[0], u[2].Addr, spice.Melange{}, []byte("late side vertex"))
+	side := ledger.ForgeVertex(world.Sealers[0], st, old.Hash, old.Hash, old.Weight+1, world.Now())
+	if err := world.Deliver(n, &side, "late vertex on an old inner vertex"); err != nil {
+		w.R.Note("c14 old tip: the side vertex was refused: " + err.Error())
+	}
+	nn, err := world.AddSyncedNode("J-oldtip", n)
+	if err != nil {
+		world.Violate("C14", "sync-failed", fmt.Sprintf("syncing from a peer with an old side tip failed: %v", err))
+		return
+	}
+	defer world.CloseNode(nn)
+	world.EvalFor("C14", 1)
+	world.NontrivFor("C14", fmt.Sprintf("sync/old-side-tip/size%d", bucketN(size)))
+	if c14Compare(world, n, nn, "after sync from a peer with an old side tip") {
+		c14FollowUp(world, rng, n, nn, 8)
+	}
+}
+
 func c14Worker(w *core.WorkerCtx) {
 	if w.Batch == 2 || (w.Thorough() && w.Batch%40 == 2) {
 		c14SlowTransport(w)
+	}
+	if w.Batch == 3 || (w.Thorough() && w.Batch%40 == 3) {
+		c14OldTip(w)
 	}
 	if w.Batch == 1 || (w.Thorough() && w.Batch%40 == 1) {
 		c14DroppedTip(w)
